@@ -81,11 +81,8 @@ func VfDHTClose() {
 	vfAssert(cerr == nil, "close/returns-without-error")
 	// long-lived loops have exited when Close returns (not merely been told to)
 	vfAssert(len(bus.subs) == 1 && bus.subs[0].closed, "close/returns-only-after-the-subscriber-loop-exited")
-	vfGosched() // Close's own helper goroutines, already past their last statement, may still be winding down
-	if withOp {
-		vfAssert(vfLiveGoroutines() <= 1+1+d.alpha+2, "close/only-transient-query-goroutines-may-outlive-close")
-	} else {
-		vfAssert(vfLiveGoroutines() == 1, "close/returns-only-after-every-long-lived-goroutine-exited")
+	for _, loop := range []string{"rtPeerLoop", "startNetworkSubscriber", "gcLoop", "RtRefreshManager).loop"} {
+		vfAssert(vfLiveMatching(loop) == 0, "close/returns-only-after-the-long-lived-loops-exited")
 	}
 	vfAssert(d.Close() == nil, "close/may-be-called-again")
 	if withOp {
